@@ -786,10 +786,9 @@ func decoyStep(r *common.Rand, e *exec, o *progOpts, b string) string {
 	case x == 8:
 		return e.patchBad(b, c.name, genBadPatch(r, true), conds)
 	}
-	// as the source of a copy / among the sources of a compose onto a destination that may exist. (Not for names that
-	// contain the API's own verbs: copy / compose URLs of such names are outside the generated space, DESIGN 5/C02.)
+	// as the source of a copy / among the sources of a compose onto a destination that may exist
 	dn, ok := pickTarget(r, e, o, b)
-	if !ok || hasVerb(c.name) || hasVerb(dn) {
+	if !ok {
 		return e.delFolder(b, c.name, model.Conds{})
 	}
 	if len(live) == 0 || r.Bool() {
